@@ -105,3 +105,45 @@ contract(f"{ENV}::PrimaiteGymEnv.step", props=["C01"], bounded=2,
 dispatch_contract(f"{G}::PrimaiteGame.update_agents", ensures=[],
                   modifies=["RewardFunction.current_reward", "RewardFunction.total_reward", "AbstractReward.reward", "AbstractReward.location_in_state",
                             "AbstractReward.callback", "AgentHistoryItem.reward", "ObservationManager.current_observation"], allocates=True)
+
+# ---- reset: a new episode, seeded when asked, built from the scheduler's scenario for the new episode number -----------------------------
+SES = "src/primaite/session"
+ENV_STATE = GAME_STATE + ["PrimaiteGymEnv.total_reward_per_episode", "Dict[int, float]{*}", "PrimaiteGymEnv.episode_scheduler", "PrimaiteGymEnv.io"]
+attr_types({"PrimaiteGymEnv.io": "PrimaiteIO", "PrimaiteGymEnv.episode_scheduler": "EpisodeScheduler"})
+contract(f"{SES}/io.py::PrimaiteIO.write_agent_log", verify=False, note="writes a JSON file: no simulation state", ensures=[], modifies=[], allocates=True)
+contract("src/primaite/simulator/system/core/packet_capture.py::PacketCapture.clear", verify=False,
+         note="closes capture file handlers (class-level logger list; see the C04 class-state scan)", ensures=[], modifies=[], allocates=True)
+dispatch_contract(f"{SES}/episode_schedule.py::EpisodeScheduler.__call__", ensures=[], modifies=[],
+                  emits=[("schedule", ["self", "episode_num"])], exact_events=True, allocates=True)
+contract(f"{SES}/episode_schedule.py::EpisodeScheduler.__call__", verify=False, note="abstract: returns the scenario of an episode (deep copy / parsed YAML), changes nothing",
+         ensures=[], modifies=[], emits=[("schedule", ["self", "episode_num"])], exact_events=True, allocates=True)
+contract(f"{G}::PrimaiteGame.from_config", verify=False,
+         note="the loader (C20): builds a NEW object graph from the scenario dictionary and writes no pre-existing object "
+              "(its two class-level writes are known finding F15); the new game starts at tick 0 (PrimaiteGame.__init__; step_counter has "
+              "a single writer, advance_timestep -- writer frame below)",
+         ensures=["fresh(result)", "result.step_counter == 0"], modifies=[],
+         emits=[("build", ["cfg"])], exact_events=True, allocates=True)
+contract(f"{G}::PrimaiteGame.setup_for_episode", verify=False, note="final per-episode configuration of the NEW simulation",
+         ensures=[], modifies=["heap"], preserves=ENV_STATE, emits=[("setup", ["self", "episode"])], exact_events=True, allocates=True)
+writers("C01", "step_counter", [f"{G}::PrimaiteGame.advance_timestep", f"{G}::PrimaiteGame.__init__"],
+        why="simulated time moves only in advance_timestep (exactly one tick, proved) and starts at 0 in a new game")
+writers("C01", "episode_counter", [f"{ENV}::PrimaiteGymEnv.reset", f"{ENV}::PrimaiteGymEnv.__init__",
+                                   f"{SES}/ray_envs.py::PrimaiteRayMARLEnv.reset", f"{SES}/ray_envs.py::PrimaiteRayMARLEnv.__init__"],
+        why="the episode number changes only in reset")
+attr_types({"PrimaiteIO.settings": "PrimaiteIO.Settings"})
+contract(f"{ENV}::PrimaiteGymEnv.reset", props=["C01", "C03", "C04"],
+         requires=["self._agent_name in self.game.rl_agents"] + UA_REQ,
+         raises={"ValueError": "seed is not None and seed < -1"},
+         ensures=[# C03 "re-seeding on reset reproduces the same episode": a given seed (gymnasium seeds are >= 0) seeds both generators, first thing
+                  ("reseeded_when_a_seed_is_given", "implies(seed is not None and seed >= 0, event_kind(old(n_events())) == ev('seed_python') and event_arg(old(n_events()), 0) == seed"
+                                                    " and event_kind(old(n_events()) + 1) == ev('seed_numpy') and event_arg(old(n_events()) + 1, 0) == seed)"),
+                  ("no_seed_no_reseeding", "implies(seed is None, forall(e, old(n_events()), n_events(), event_kind(e) != ev('seed_python') and event_kind(e) != ev('seed_numpy')))"),
+                  ("next_episode", "self.episode_counter == old(self.episode_counter) + 1"),
+                  # C04/C01: the game after reset is a NEW object graph built from the scheduler's scenario for the new episode number, at tick 0
+                  ("new_game_from_this_episodes_scenario",
+                   "fresh(self.game) and self.game.step_counter == 0 and n_events() >= old(n_events()) + 3"
+                   " and event_kind(n_events() - 3) == ev('schedule') and event_arg(n_events() - 3, 0) is old(self.episode_scheduler)"
+                   " and event_arg(n_events() - 3, 1) == old(self.episode_counter) + 1 and event_kind(n_events() - 2) == ev('build')"
+                   " and event_kind(n_events() - 1) == ev('setup') and event_arg(n_events() - 1, 0) is self.game and event_arg(n_events() - 1, 1) == old(self.episode_counter) + 1"),
+                  ("total_reward_recorded", "self.total_reward_per_episode[old(self.episode_counter)] == old(self.game.rl_agents[self._agent_name].reward_function.total_reward)")],
+         modifies=["heap"], allocates=True)
